@@ -23,8 +23,7 @@ def sh(cmd, cwd, timeout=1500):
     return r.returncode, (r.stdout + r.stderr)
 meta = {"property": pid, "change": int(n), "source": "independent sub-agent, given only the property text and a scratch worktree", "ran": []}
 A = copy("with_change")
-rc, o = sh("git apply --unsafe-paths --directory=%s %s 2>&1 || patch -p1 -d %s < %s" % (A, patch, A, patch), "/")
-# git apply outside a repo: use patch
+rc, o = sh("patch -p1 -d %s < %s" % (A, patch), "/")
 if rc != 0:
     print("patch failed", o[-500:]); sys.exit(3)
 dl = open(demo).read().split("\n")
@@ -32,8 +31,8 @@ m = re.search(r"(src/[A-Za-z0-9_/]+\.rs|tests/[A-Za-z0-9_/]+\.rs)", dl[0] + " " 
 target = m.group(1) if m else None
 meta["demo_appended_to"] = target
 # 1. suite with change
-rc, o = sh("cargo test --offline 2>&1 | grep -E 'test result|FAILED|error' ", A)
-suite_ok = "FAILED" not in o and "error" not in o and o.count("test result: ok") >= 2
+rc, o = sh("cargo test --offline 2>&1 | grep -E '^test result|^error' ", A)
+suite_ok = "FAILED" not in o and "error" not in o and o.count("test result: ok") >= 2 and "62 passed" in o and "2 passed" in o
 meta["ran"].append({"cmd": "cargo test --offline (with change)", "ok": suite_ok, "out": o[-400:]})
 # extra dev-deps the demo may need (tokio test-util)
 def add_demo(d):
